@@ -43,11 +43,24 @@ class HarnessError(Exception):
 _scratch_root = None
 
 
+def sweep_stale_scratch(base):
+    """Remove scratch roots left behind by runs that were killed (the owner's pid is in the name)."""
+    try:
+        names = os.listdir(base)
+    except OSError:
+        return
+    for n in names:
+        m = re.match(r"hexverif-(\d+)-", n)
+        if m and not os.path.exists("/proc/%s" % m.group(1)):
+            shutil.rmtree(os.path.join(base, n), ignore_errors=True)
+
+
 def scratch_root():
     global _scratch_root
     if _scratch_root is None:
         base = os.environ.get("VERIF_SCRATCH") or tempfile.gettempdir()
-        _scratch_root = tempfile.mkdtemp(prefix="hexverif-", dir=base)
+        sweep_stale_scratch(base)
+        _scratch_root = tempfile.mkdtemp(prefix="hexverif-%d-" % os.getpid(), dir=base)
         atexit.register(lambda: shutil.rmtree(_scratch_root, ignore_errors=True))
     return _scratch_root
 
